@@ -288,6 +288,19 @@ def c03_fn(ctx, case):
             ctx.close(np.real(vb), np.real(va), what, rtol=1e-6, atol=1e-8, sig=sig)
 
 
+def enum_grid(tier):
+    for row, p, N, cplx, nfft in est.grid_points(lengths=(17, 40, 150)):
+        for c in ({"mod": 1000.0, "phase": 0.0}, {"mod": 1e-3, "phase": math.pi if not cplx else 2.0}, {"mod": 3.0, "phase": math.pi if not cplx else 0.5}):
+            yield {"row": row, "x": est.sanitize(row, est.grid_x(N, cplx, 21)), "params": p, "nfft": nfft, "c": c}
+
+
+@sub("C03.grid", enum=enum_grid, exhaustive=True, shards_quick=4, shards_thorough=4,
+     doc="fixed grid, independent of the seed: every estimator row x N in {17, 40, 150} x real/complex x NFFT in {N, N+3, 2N} x "
+         "c in {1000, 1e-3 e^{i phi}, 3 e^{i phi}} (real data: c and -c)")
+def c03_grid(ctx, case):
+    c03_cls(ctx, case)
+
+
 # ---- Yule-Walker with the unbiased lags of a short narrow-band record (the autocorrelation matrix may be indefinite) ---------
 def enum_unbiased(tier):
     for N in (12, 15, 18, 24, 30):
